@@ -125,8 +125,9 @@ Spec == Init /\ [][Next]_vars
 
 \* ---- the property -----------------------------------------------------------
 \* no two live instances point to the same cell, nobody points to the class default
-NoSharing == \A i \in live : /\ ref[i] # Dflt
-                             /\ \A j \in live \ {i} : ref[i] # ref[j]
+NoSharingIn(lv, rf) == \A i \in lv : /\ rf[i] # Dflt
+                                     /\ \A j \in lv \ {i} : rf[i] # rf[j]
+NoSharing == NoSharingIn(live, ref)
 \* a freshly constructed instance has the same value at any time
 DefaultStable == FreshValue = D0
 
